@@ -103,10 +103,42 @@ class _Canon(ast.NodeTransformer):
             return ast.copy_location(new, node)
         return node
 
+    def _merge_predicate_parts(self, node: ast.BoolOp) -> None:
+        """`p.name == N and p.arity == K` (either operand order, anywhere in one conjunction) is `p == Predicate(N, K)`:
+        Predicate is a frozen dataclass of exactly these two fields"""
+        if not isinstance(node.op, ast.And):
+            return
+
+        def side(cmp_: ast.AST, attr: str):  # type: ignore[no-untyped-def]
+            if isinstance(cmp_, ast.Compare) and len(cmp_.ops) == 1 and isinstance(cmp_.ops[0], ast.Eq):
+                l, r = cmp_.left, cmp_.comparators[0]
+                for a, b in ((l, r), (r, l)):
+                    if isinstance(a, ast.Attribute) and a.attr == attr and _plain(a.value):
+                        yield a.value, b
+
+        for i, c2 in enumerate(list(node.values)):
+            for owner, arity in side(c2, "arity"):
+                key = ast.unparse(owner)
+                for j, c1 in enumerate(list(node.values)):
+                    if j == i:
+                        continue
+                    hit = [(o, n) for o, n in side(c1, "name") if ast.unparse(o) == key]
+                    if hit:
+                        new = ast.Compare(left=owner, ops=[ast.Eq()], comparators=[ast.Call(func=ast.Name("Predicate", ast.Load()), args=[hit[0][1], arity], keywords=[])])
+                        ast.fix_missing_locations(ast.copy_location(new, node.values[min(i, j)]))
+                        lo, hi = min(i, j), max(i, j)
+                        node.values[lo] = new
+                        del node.values[hi]
+                        self._merge_predicate_parts(node)
+                        return
+
     def visit_BoolOp(self, node: ast.BoolOp) -> ast.AST:
         self.generic_visit(node)
         if not self.structure:
             return node
+        self._merge_predicate_parts(node)
+        if len(node.values) == 1:
+            return node.values[0]
         want = ast.Eq if isinstance(node.op, ast.Or) else ast.NotEq
         groups: dict[str, list[int]] = {}
         for i, val in enumerate(node.values):
@@ -310,7 +342,56 @@ def _expand_comprehensions(func: ast.AST) -> int:
             if out is not None:
                 stmt.value = ast.copy_location(ast.Name("_ret", ast.Load()), stmt.value)
                 return out + [stmt]
+        # e. next(<generator>, default): the search loop it abbreviates
+        #      return next((E for x in xs if c), D)   ->  for x in xs: if c: return E      return D
+        #      T = next((E for x in xs if c), D)      ->  T = D;  for x in xs: if c: T = E; break     (one generator only)
+        def is_next(v: Optional[ast.expr]) -> bool:
+            return (isinstance(v, ast.Call) and isinstance(v.func, ast.Name) and v.func.id == "next" and len(v.args) == 2 and not v.keywords
+                    and isinstance(v.args[0], ast.GeneratorExp) and "next" not in bound_outside)
+
+        if isinstance(stmt, ast.Return) and is_next(stmt.value):
+            gen_, dflt = stmt.value.args  # type: ignore[union-attr]
+            rename = fresh_names(gen_)
+            found = ast.copy_location(ast.Return(value=gen_.elt), stmt)
+            _, ren = _loops_for(gen_, [found], rename)  # type: ignore[misc]
+            loops2, _ = _loops_for(gen_, [ren().visit(found)], rename)  # type: ignore[misc]
+            last = ast.copy_location(ast.Return(value=dflt), stmt)
+            for mark in ("ngosa_inline",):
+                if getattr(stmt, mark, None) is not None:
+                    setattr(found, mark, getattr(stmt, mark))
+                    setattr(last, mark, getattr(stmt, mark))
+            return loops2 + [last]
+        if isinstance(stmt, (ast.Assign, ast.AnnAssign)) and is_next(stmt.value) and len(stmt.value.args[0].generators) == 1:  # type: ignore[union-attr]
+            target = stmt.targets[0] if isinstance(stmt, ast.Assign) and len(stmt.targets) == 1 else (stmt.target if isinstance(stmt, ast.AnnAssign) else None)
+            if isinstance(target, ast.Name) and not mentions(stmt.value, target.id):
+                gen_, dflt = stmt.value.args  # type: ignore[union-attr]
+                rename = fresh_names(gen_)
+                hit_ = ast.copy_location(ast.Assign(targets=[ast.Name(target.id, ast.Store())], value=gen_.elt, type_comment=None), stmt)
+                brk_ = ast.copy_location(ast.Break(), stmt)
+                _, ren = _loops_for(gen_, [hit_], rename)  # type: ignore[misc]
+                # the break must sit next to the assignment, inside the innermost if
+                inner_if_body = [ren().visit(hit_), brk_]
+                loops2, _ = _loops_for(gen_, inner_if_body, rename)  # type: ignore[misc]
+                stmt.value = dflt
+                return [stmt] + loops2
         # d. return [not] any(<generator>) / all(<generator>): the search loop it abbreviates
+        if isinstance(stmt, ast.Return) and isinstance(stmt.value, ast.BoolOp) and isinstance(stmt.value.op, ast.And) and len(stmt.value.values) >= 2:
+            # return A and all(<generator>)   ->   if not A: return False;  return all(<generator>)   (A a comparison)
+            lastv = stmt.value.values[-1]
+            inner = lastv.operand if isinstance(lastv, ast.UnaryOp) and isinstance(lastv.op, ast.Not) else lastv
+            if (isinstance(inner, ast.Call) and isinstance(inner.func, ast.Name) and inner.func.id in ("any", "all") and len(inner.args) == 1 and isinstance(inner.args[0], (ast.GeneratorExp, ast.ListComp))
+                    and all(isinstance(v, ast.Compare) for v in stmt.value.values[:-1])):
+                prefix = stmt.value.values[:-1]
+                pre = prefix[0] if len(prefix) == 1 else ast.BoolOp(op=ast.And(), values=prefix)
+                guard = ast.copy_location(ast.If(test=_negate(copy.deepcopy(pre)), body=[ast.copy_location(ast.Return(value=ast.Constant(False)), stmt)], orelse=[]), stmt)
+                rest_ret = ast.copy_location(ast.Return(value=lastv), stmt)
+                for mark in ("ngosa_inline",):
+                    if getattr(stmt, mark, None) is not None:
+                        setattr(guard.body[0], mark, getattr(stmt, mark))
+                        setattr(rest_ret, mark, getattr(stmt, mark))
+                tail = expand(rest_ret)
+                if tail is not None:
+                    return [guard] + tail
         if isinstance(stmt, ast.Return) and stmt.value is not None:
             val_, neg = stmt.value, False
             if isinstance(val_, ast.UnaryOp) and isinstance(val_.op, ast.Not):
